@@ -16,6 +16,10 @@ Decided clauses:
        each byte's last writer on the path is a constant store / fill (byte ranges of the writers from their constant offsets,
        loop-index intervals and, for callees, E8's store extents). A reset that only sets the low byte keeps the old high bytes
        after an explicit rekey, and the stream no longer matches the documented construction.
+  R9.5 the authenticated length block is LE64(adlen) || LE64(64 + mlen) of the *caller's* lengths: the values stored into the
+       8-byte buffer that is fed to Poly1305 after the ciphertext are, in order, exactly the adlen parameter and the message
+       length plus the size of the tag block (push: mlen + 64; pull: inlen - ABYTES + 64) - also when the absorbing steps are
+       factored into helpers that return byte counts (inlined).
   R9.3 short input rejected, *mlen_p == 0 on failure (instances of R2.3 / R2.4).
 NOT decided: history-level delivery/ordering, behaviour at counter wrap as arithmetic, interop bytes.
 """
@@ -259,6 +263,7 @@ def run(ctx, chk):
                    path=None if ok else p, key="R9.3 %s mlen_p" % pull.name)
     chk.floor("R9.3", "uses of inlen - ABYTES on pull paths", n, 10)
     counter_reset_rule(ctx, prog, chk, push)
+    length_block_rule(prog, chk, push, pull)
 
 
 def region_final(prog, hz, p, root, lo, hi):
@@ -392,3 +397,42 @@ def counter_reset_rule(ctx, prog, chk, push):
                    detail="" if ok else "counter bytes at exit: %s (old = value from before the call survives, unk = not a constant)" %
                    " ".join("%02x" % b if isinstance(b, int) else b for b in fin), key="R9.4 %s counter" % name)
     chk.floor("R9.4", "returning paths of rekey / init_push / init_pull", n, 3)
+
+
+def length_block_rule(prog, chk, push, pull):
+    """R9.5: LE64(adlen) || LE64(sizeof block + mlen) with the caller's lengths"""
+    ab = prog.K("crypto_secretstream_xchacha20poly1305_ABYTES")
+    n = 0
+    for fn, mname, mconst in ((push, "mlen", 64), (pull, "inlen", 64 - ab)):
+        ADLEN = ("arg", fn.param_index("adlen"))
+        MLEN = ("arg", fn.param_index(mname))
+        if ADLEN[1] is None or MLEN[1] is None:
+            raise AnalysisBroken("R9.5: %s has no parameters named adlen / %s" % (fn.sname, mname))
+        for p in cm.paths(prog, fn):
+            if p.kind != "ret" or not p.may_return_zero():
+                continue
+            fin = [e for e in p.calls("crypto_onetimeauth_poly1305_final")]
+            if not fin:
+                continue
+            vals = []
+            for e in p.calls("crypto_onetimeauth_poly1305_update"):
+                if e.idx > fin[0].idx or len(e.args) < 3 or not (e.args[2][0] == "c" and e.args[2][1] == 8):
+                    continue
+                buf = e.args[1]
+                if T.root(buf)[0] != "alloca":
+                    continue
+                w = [x for x in p.events[:e.idx] if x.kind == "call" and (x.callee_name() or "").startswith(("store64_le", "memcpy", "llvm.memcpy"))
+                     and x.args and x.args[0] == buf]
+                if not w:
+                    w = [x for x in p.events[:e.idx] if x.kind == "store" and x.addr == buf and x.size == 8]
+                    vals.append((e, w[-1].val if w else None))
+                else:
+                    vals.append((e, w[-1].args[1] if (w[-1].callee_name() or "").startswith("store64_le") else None))
+            n += 1
+            ok = len(vals) == 2 and vals[0][1] is not None and vals[1][1] is not None and \
+                T.linear(vals[0][1]) == ({ADLEN: 1}, 0) and T.linear(vals[1][1]) == ({MLEN: 1}, mconst)
+            chk.ob("R9.5", fn, "the MAC covers LE64(adlen) || LE64(64 + message length) of the caller's lengths", ok,
+                   loc=fn.loc(vals[0][0].iid) if vals else fn.loc(fin[0].iid), path=None if ok else p,
+                   detail="" if ok else "length block values on this path: %s" %
+                   ", ".join(T.show(v, fn) if v is not None else "?" for _e, v in vals), key="R9.5 %s length-block" % fn.sname)
+    chk.floor("R9.5", "authenticating success paths of push / pull", n, 4)
